@@ -19,6 +19,9 @@ type c28Store struct {
 	db     *NoKV.DB
 	calls  int
 	failAt int // the RPC with this number (1-based) fails before reaching the store; 0 = none
+	// the RPCs numbered notLeaderFrom .. notLeaderFrom+notLeaderCount-1 are answered
+	// with a NotLeader region error (the region's leader moved; the request was not applied)
+	notLeaderFrom, notLeaderCount int
 	// beforeFirstCommit runs once, when the first commit request reaches the store
 	// and before it is processed (something else happened between the two phases)
 	beforeFirstCommit func()
@@ -30,6 +33,13 @@ func (s *c28Store) rpc() error {
 	s.calls++
 	if s.calls == s.failAt {
 		return errC28RPC
+	}
+	return nil
+}
+
+func (s *c28Store) regionError() *pb.RegionError {
+	if s.notLeaderFrom > 0 && s.calls >= s.notLeaderFrom && s.calls < s.notLeaderFrom+s.notLeaderCount {
+		return &pb.RegionError{NotLeader: &pb.NotLeader{Leader: &pb.RegionPeer{StoreId: 1, PeerId: 11}}}
 	}
 	return nil
 }
@@ -54,12 +64,18 @@ func (s *c28Store) KvPrewrite(ctx context.Context, in *pb.KvPrewriteRequest, opt
 	if err := s.rpc(); err != nil {
 		return nil, err
 	}
+	if re := s.regionError(); re != nil {
+		return &pb.KvPrewriteResponse{RegionError: re}, nil
+	}
 	r := s.apply(&pb.Request{CmdType: pb.CmdType_CMD_PREWRITE, Cmd: &pb.Request_Prewrite{Prewrite: in.GetRequest()}})
 	return &pb.KvPrewriteResponse{Response: r.GetPrewrite()}, nil
 }
 func (s *c28Store) KvCommit(ctx context.Context, in *pb.KvCommitRequest, opts ...grpc.CallOption) (*pb.KvCommitResponse, error) {
 	if err := s.rpc(); err != nil {
 		return nil, err
+	}
+	if re := s.regionError(); re != nil {
+		return &pb.KvCommitResponse{RegionError: re}, nil
 	}
 	if h := s.beforeFirstCommit; h != nil {
 		s.beforeFirstCommit = nil
@@ -125,17 +141,26 @@ func VerifC28Atomic() {
 	keys := []string{"a", "b", "x"}
 	nk := sym.Int("nkeys", 2, 3)
 	primary := keys[sym.Int("primary", 0, 1)]
+	payload := sym.U8("payload")
 	var muts []*pb.Mutation
 	for _, k := range keys[:nk] {
-		muts = append(muts, &pb.Mutation{Op: pb.Mutation_Put, Key: []byte(k), Value: []byte("new-" + k)})
+		muts = append(muts, &pb.Mutation{Op: pb.Mutation_Put, Key: []byte(k), Value: []byte{payload, k[0]}})
 	}
 	if sym.Int("primary_listed_last", 0, 1) == 1 {
 		// the caller lists the primary after the other keys of its region
 		muts[0], muts[1] = muts[1], muts[0]
 	}
-	const start, commit, ttl = 10, 20, 5
+	// versions and lock lifetime are symbolic (one varint byte each, see DESIGN 9.1)
+	start := uint64(sym.SymInt("start_version", 1, 60))
+	commit := uint64(sym.SymInt("commit_version", 2, 120))
+	sym.Assume(commit > start)
+	ttl := uint64(sym.SymInt("lock_ttl", 0, 20))
 	st.failAt = sym.Int("lost_rpc", 0, 4)
 	expire := sym.Int("status_check_between_phases", 0, 1) == 1
+	if st.notLeaderFrom = sym.Int("not_leader_from_rpc", 0, 4); st.notLeaderFrom > 0 {
+		// the region's leader keeps moving: 1..maxRetries consecutive attempts are turned away
+		st.notLeaderCount = sym.Int("not_leader_count", 1, 2)
+	}
 
 	if expire {
 		// another client finds the primary lock expired after the prewrites (the 2PC
@@ -143,13 +168,13 @@ func VerifC28Atomic() {
 		// commit request
 		st.beforeFirstCommit = func() {
 			r := st.apply(&pb.Request{CmdType: pb.CmdType_CMD_CHECK_TXN_STATUS, Cmd: &pb.Request_CheckTxnStatus{CheckTxnStatus: &pb.CheckTxnStatusRequest{
-				PrimaryKey: []byte(primary), LockTs: start, CurrentTs: 100, CallerStartTs: 100, RollbackIfNotExist: true}}})
+				PrimaryKey: []byte(primary), LockTs: start, CurrentTs: uint64(sym.SymInt("status_check_current_ts", 0, 127)), CallerStartTs: 127, RollbackIfNotExist: true}}})
 			sym.Assert(r.GetCheckTxnStatus().GetError() == nil, "status-check-ok")
 		}
 	}
 	err := cl.TwoPhaseCommit(ctx, []byte(primary), muts, start, commit, ttl)
 	// resolution by whoever finds the leftovers: ask the primary, then resolve every key accordingly
-	st.failAt = 0
+	st.failAt, st.notLeaderFrom = 0, 0
 	status, serr := cl.CheckTxnStatus(ctx, []byte(primary), start, 1000)
 	sym.Assert(serr == nil && status != nil, "resolution-status-ok")
 	var allKeys [][]byte
@@ -164,7 +189,7 @@ func VerifC28Atomic() {
 	for _, k := range keys[:nk] {
 		found, locked, val := st.read(k, 1000)
 		sym.Assert(!locked, "no-lock-left-after-resolution")
-		if found && string(val) == "new-"+k {
+		if found && len(val) == 2 && val[0] == payload && val[1] == k[0] {
 			visible++
 		}
 	}
